@@ -3,7 +3,7 @@
    Model: coq/TrieCodec/Codec.v (node.Decode / node.Encode / header / key of pkg/trie/node and
    Decode of pkg/trie/triedb/codec), tied to the Go code by props/C07. *)
 From Common Require Import Bytes Outcome Blake2b.
-From TrieCodec Require Import Codec View ProofsBasic ProofsHeader ProofsDecode ProofsTotal.
+From TrieCodec Require Import Codec View Dencode ProofsBasic ProofsHeader ProofsDecode ProofsTotal.
 From C07 Require Import Model Proofs.
 Local Open Scope N_scope.
 
@@ -31,6 +31,34 @@ Theorem C07_roundtrip_blake2b :
   node_decode st (encode blake2b_256 n) = Ok (Some (view blake2b_256 n)).
 Proof. intros st n W. exact (decode_encode blake2b_256 blake2b_256_length st true n W). Qed.
 Print Assumptions C07_roundtrip_blake2b.
+
+(* The other direction of "equivalent node": the node Decode returns for the encoding of n — hashed
+   value kept as its hash (IsHashedValue), children referenced by hash kept as Merkle-value stubs,
+   inlined children decoded in place — passed to Encode again (as repaired by
+   fixes/C07-encode-decoded-hashed-value.patch) gives exactly the bytes it was decoded from, and
+   therefore decodes to itself: Decode and Encode are mutually inverse on everything Encode emits. *)
+Theorem C07_reencode :
+  forall (H : list byte -> list byte), (forall x, length (H x) = 32%nat) ->
+  forall st fixed n, wf_node n = true ->
+     node_reencode H (view H n) = encode H n
+  /\ decode st fixed (node_reencode H (view H n)) = Ok (Some (view H n)).
+Proof. exact reencode_view. Qed.
+Print Assumptions C07_reencode.
+
+(* the pinned Encode ignores IsHashedValue: the decoded V1 leaf 21 01 <hash> is encoded back as
+   41 01 80 <hash>, a plain leaf whose 32-byte inline value is the hash — not the node decoded *)
+Theorem C07_reencode_pinned_refuted :
+  let n := ex_hashed_leaf in
+  let h := blake2b_256 (repeat (n2b 7) 33) in
+     wf_node n = true
+  /\ view blake2b_256 n = DLeaf [n2b 1] (DVHashed h)
+  /\ encode blake2b_256 n = n2b 33 :: n2b 1 :: h
+  /\ node_reencode_pinned blake2b_256 (view blake2b_256 n) = n2b 65 :: n2b 1 :: n2b 128 :: h
+  /\ (forall st, node_decode st (node_reencode_pinned blake2b_256 (view blake2b_256 n))
+                 = Ok (Some (DLeaf [n2b 1] (DVInline (h, 0)))))
+  /\ node_reencode blake2b_256 (view blake2b_256 n) = encode blake2b_256 n.
+Proof. exact reencode_pinned_witness. Qed.
+Print Assumptions C07_reencode_pinned_refuted.
 
 (* the header: every node variant and every partial-key length 0..65535 (the in-byte limit
    63/31/15, runs of 255, the final byte) survives encodeHeader ; decodeHeader, whatever follows *)
